@@ -1013,6 +1013,9 @@ impl<T: ArrayValue> Array<T> {
                 )));
             }
             let n = index[0];
+            // Validate the size of the result before allocating it
+            let new_row_count = self.shape[0] + n.unsigned_abs();
+            validate_size::<T>([new_row_count].into_iter().chain(row_shape.iter().copied()), env)?;
             let fill_elems = fill.shape.elements();
             let reps = if fill_elems == 0 {
                 0
@@ -1025,7 +1028,7 @@ impl<T: ArrayValue> Array<T> {
                 (self.data.as_mut_slice())
                     .rotate_right(n.unsigned_abs() * reps * fill.shape.elements());
             }
-            self.shape[0] += n.unsigned_abs();
+            self.shape[0] = new_row_count;
             self.validate();
             return Ok(self);
         }
